@@ -797,7 +797,12 @@ MANIFEST = {
             "backup/restore/synchronize/export/merge operations no dictionary loses an entry or lowers a magnitude (C17_history_never_loses); "
             "and, given the constructor facts extracted from the current source (C17_members_initialised, "
             "C17_ctor_initialises_merged_entries), a merge reads no uninitialised member and is independent of the storage's previous "
-            "content (C17_merge_reads_initialised).  Each implication has a computed example beside it.",
+            "content (C17_merge_reads_initialised).  Whole files: Export then Import into any dictionary follows the import rule with "
+            "ticks and metadata untouched and comment/#@ lines ignored (C17_export_import_file, C17_export_import_into_empty).  Beyond "
+            "the property: two covering rounds of Synchronize between any number of installations make all agree on keys and commit "
+            "magnitudes (C17_sync_two_rounds_converge); back-to-back double syncs do not (C17_sync_twice_any_order_refuted) and signs "
+            "need not converge (C17_sync_sign_tie_example) - both replayed on the real code as observations.  Each implication has a "
+            "computed example beside it.",
     "note": "No axioms (Print Assumptions: closed under the global context; thorough also runs coqchk). Trusted: Coq kernel + vm_compute; "
             "gen/udb_inits.py (clang JSON AST -> init facts, refuses with translator_ok := false); the port in coq/Udb/*.v (validated by "
             "differential testing against the real classes on LevelDB after every operation, including out-of-domain keys/values/files; the "
@@ -805,7 +810,8 @@ MANIFEST = {
             "printed double has no blank and parses again; commit counts above INT_MIN (abs(INT_MIN) is undefined in C++); round trip only "
             "for well-formed keys (code TAB text, code starting with a byte >= 0x20 other than '#' and ending with a blank, no LF; other keys "
             "cannot be carried by a snapshot line); tick clause needs >= 1 merged entry (CloseMerge's early return; judged not to break the "
-            "property, DESIGN.md section 9); the sync directory's iteration order is an input.  Gaps: whole-file export->import round trip is "
-            "covered by correspondence and the per-line theorem only; std::abs(INT_MIN) and the int overflow of `commits + 1` in "
+            "property, DESIGN.md section 9); the sync directory's iteration order is an input; export round trip only for keys whose code is "
+            "tidy (no surrounding isspace bytes) and whose text does not start with '#'; convergence needs a printed double free of isspace "
+            "bytes.  Gaps: std::abs(INT_MIN) and the int overflow of `commits + 1` in "
             "table_db.cc:32 for a weight of INT_MAX are outside the model.",
 }
